@@ -31,6 +31,7 @@ import (
 	"bytes"
 	"fmt"
 	"math/big"
+	"slices"
 
 	"github.com/tuneinsight/lattigo/v6/core/rlwe"
 	"github.com/tuneinsight/lattigo/v6/multiparty"
@@ -616,9 +617,16 @@ func (x *ext) newShape(shape, j int, active []int) (cmb multiparty.Combiner, ok 
 			}
 		}
 	}
+	listed := append([]multiparty.ShamirPublicPoint(nil), others...)
 	ok = x.c.Try("C15|multiparty.NewCombiner", func() {
 		cmb = multiparty.NewCombiner(e.params, multiparty.ShamirPublicPoint(e.pts[j]), others, e.T)
 	})
+	if ok {
+		x.c.Count("combiner_input_lists_compared", 1)
+		ok = x.c.Check(slices.Equal(listed, others), "C15|multiparty.NewCombiner|input-list-modified", func() string {
+			return fmt.Sprintf("listed %v, after the call %v", listed, others)
+		})
+	}
 	return
 }
 
